@@ -791,22 +791,38 @@ def sels_table(tu, rnd, selv):
     return out
 
 
-def chain_grammar(tu, gname, rnd, k, top_selected):
-    """unselected chain of k named rules around a selected leaf: straddles parse_tree's is_leaf< 8 > optimisation"""
+def chain_grammar(tu, gname, rnd, k, top_selected, shape=0):
+    """unselected chain of k named rules around a selected leaf: straddles parse_tree's is_leaf< 8 > optimisation.
+    shape 0: the chain only succeeds or fails as a whole; shape 1: the top of the chain fails AFTER the deep selected leaf
+    matched (C0 : seq< C1, one<'c'> >) and another alternative then succeeds, so that nodes of the abandoned branch would be
+    left over if an unselected ancestor kept no bookkeeping."""
     g = G(tu, gname, rnd, "tree", "C12")
-    g.cell = "chain:%d:%s" % (k, "top" if top_selected else "notop")
-    g.names = ["%s::C%d" % (gname, i) for i in range(k + 1)] + ["%s::T" % gname]
+    g.cell = "chain:%d:%s:%d" % (k, "top" if top_selected else "notop", shape)
+    g.names = ["%s::C%d" % (gname, i) for i in range(k + 1)] + ["%s::D" % gname, "%s::T" % gname]
     g.named_ids = [g.add("NAMED", vid=tu.vid(n)) for n in g.names]
     for i in range(k):
-        g.bodies.append(("seq< %s >" % g.names[i + 1], g.add("SEQ", kids=(g.named_ids[i + 1],))))
+        if i == 0 and shape == 1:
+            x = g.op("seq", [(g.names[1], g.named_ids[1]), g.atom("one", "c")])
+            g.finish_named(0, x[0], x[1])
+        else:
+            g.bodies.append(("seq< %s >" % g.names[i + 1], g.add("SEQ", kids=(g.named_ids[i + 1],))))
     leaf = g.op("plus", [g.atom("one", "a")])
     g.finish_named(k, leaf[0], leaf[1])
-    body = g.op("seq", [(g.names[0], g.named_ids[0]), g.op("star", [g.atom("one", "b")]), g.op("opt", [(g.names[0], g.named_ids[0])])])
-    g.finish_named(k + 1, body[0], body[1])
+    d = g.op("plus", [g.atom("one", "a")])
+    g.finish_named(k + 1, d[0], d[1])
+    C0 = (g.names[0], g.named_ids[0])
+    D = (g.names[k + 1], g.named_ids[k + 1])
+    if shape == 1:
+        body = g.op("seq", [g.op("sor", [C0, D]), g.op("star", [g.atom("one", "b")]), g.op("opt", [C0])])
+    else:
+        body = g.op("seq", [C0, g.op("star", [g.atom("one", "b")]), g.op("opt", [C0])])
+    g.finish_named(k + 2, body[0], body[1])
     tu.chain_sel.add(tu.vid(g.names[k]))
+    tu.chain_sel.add(tu.vid(g.names[k + 1]))
     tu.chain_sel.add(tu.vid("one< 'b' >"))
+    tu.chain_sel.add(tu.vid("one< 'a' >"))
     if top_selected:
-        tu.chain_sel.add(tu.vid(g.names[k + 1]))
+        tu.chain_sel.add(tu.vid(g.names[k + 2]))
         tu.chain_sel.add(tu.vid(g.names[0]))
     g.close()
     return g
@@ -906,13 +922,13 @@ def make_tus(profile, seed, count, per_tu=10, prop=None):
         return tus
     if profile == "chain":
         gi = 0
-        specs = [(k, t) for k in (5, 6, 7, 8, 9, 10, 11) for t in (False, True)]
-        for i in range(0, len(specs), 7):
+        specs = [(k, t, sh) for sh in (0, 1) for k in (5, 6, 7, 8, 9, 10, 11, 12) for t in (False, True)]
+        for i in range(0, len(specs), 8):
             tu = TU()
-            for (k, t) in specs[i:i + 7]:
-                tu.grammars.append(chain_grammar(tu, "g%d" % gi, rnd, k, t))
+            for (k, t, sh) in specs[i:i + 8]:
+                tu.grammars.append(chain_grammar(tu, "g%d" % gi, rnd, k, t, sh))
                 gi += 1
-            tus.append(("chain-%d-%d" % (seed, i // 7), emit_tu(tu, seed * 977 + i), len(tu.grammars)))
+            tus.append(("chain-%d-%d" % (seed, i // 8), emit_tu(tu, seed * 977 + i), len(tu.grammars)))
         return tus
     default_prop = {"core": "C01", "conv": "C09", "exc": "C05", "act": "C04", "tree": "C12", "buf": "C07", "state": "C13", "contrib": "C09", "atoms": "C06"}[profile]
     gi = 0
